@@ -17,7 +17,9 @@ ASSUME = ['reference operators are built in the harness from occupation-number s
 PARAM = st.one_of(st.sampled_from([0.0, 1.0, -1.0, 0.5, -0.5]), st.sampled_from([0.0, 1.0, -1.0]),
                   st.floats(0.1, 3.0), st.floats(-3.0, -0.1),
                   # every parameter value: weak couplings next to O(1) ones, and uniformly tiny / huge scales
-                  st.sampled_from([1e-9, -1e-9, 1e-5, 3e-12, 1e-22, -2.5e-16, 1e6, -4e3]))
+                  st.sampled_from([1e-9, -1e-9, 1e-5, 3e-12, 1e-22, -2.5e-16, 1e6, -4e3]),
+                  # Python integers are legal parameter values too
+                  st.sampled_from([1, -1, 2, 0, -3]))
 
 # expected physical charge per local basis state (what the model conserves); the MPO's `qd` must separate
 # local states at least as finely
